@@ -236,6 +236,8 @@ def run_real(spec, steps, lib_callbacks=None, ckpt_path=None, crash_at=None, wat
             r.setting = setting if setting is not None else optimizer_setting(spec)
             solver = tp.solver.Solver(w.train, w.val, optimizer_setting=r.setting)
         r.solver = solver
+        for c_, wt in zip(w.train, spec.get("late_weights") or []):
+            c_.weight = wt             # condition.weight is a public attribute: assigned after the Solver was constructed
         if probe is not None:
             rec.probe = probe(w, solver)
             r.probe_before = {k: v.detach().clone() for k, v in rec.probe.state_dict().items()}
